@@ -161,6 +161,57 @@ pub fn dispatch(kind: &str, a: &[&str]) -> Option<String> {
             }
         }
         // <<< a_c06
+        // >>> a_c01 (C01): a chain of parses into ONE tape (2..n documents, some rejected, some with a
+        // BOM, some empty), alternating the two ways of obtaining a parser; the convenience entry point
+        // `TextTapeParser::new().parse_slice` is checked against it on every step.  One field per step.
+        ("tt.chain", docs) if !docs.is_empty() => {
+            let bufs: Vec<Vec<u8>> = docs.iter().map(|h| unhex(h)).collect();
+            let mut tape = TextTape::new();
+            let mut out: Vec<String> = Vec::with_capacity(bufs.len());
+            for (k, d) in bufs.iter().enumerate() {
+                let r = if k % 2 == 0 {
+                    TextTape::parser().parse_slice_into_tape(d, &mut tape)
+                } else {
+                    jomini::text::TextTapeParser::new().parse_slice_into_tape(d, &mut tape)
+                };
+                let s = match r {
+                    Ok(()) => format!("ok {} {}", tape.utf8_bom() as u8, show_tokens(tape.tokens())),
+                    Err(_) => "ERR".to_string(),
+                };
+                let direct = show_tape(&jomini::text::TextTapeParser::new().parse_slice(d));
+                if direct != s {
+                    out.push(format!("parse_slice-differs[{}]", s));
+                } else {
+                    out.push(s);
+                }
+            }
+            out.join(" | ")
+        }
+        // Operator::symbol / name / Display of every Operator token of the tape (src/text/operator.rs)
+        ("tt.ops", [h]) => {
+            let d = unhex(h);
+            match TextTape::from_slice(&d) {
+                Ok(t) => {
+                    let v: Vec<String> = t
+                        .tokens()
+                        .iter()
+                        .filter_map(|x| match x {
+                            TextToken::Operator(o) => Some(format!(
+                                "{}:{}:{}:{}",
+                                op_code(o),
+                                hex(o.symbol().as_bytes()),
+                                o.name(),
+                                hex(format!("{}", o).as_bytes())
+                            )),
+                            _ => None,
+                        })
+                        .collect();
+                    if v.is_empty() { "ok -".to_string() } else { format!("ok {}", v.join(" ")) }
+                }
+                Err(_) => "ERR".to_string(),
+            }
+        }
+        // <<< a_c01
         _ => return None,
     };
     Some(r)
